@@ -97,6 +97,41 @@ mod verif_c10 {
     crc_h!(ser_u64, de_u64, corrupt_u64, C64, u64, 8, to_slice_u64, take_from_bytes_u64, 64, CRC_64_ECMA_182);
     crc_h!(ser_u128, de_u128, corrupt_u128, C128, u128, 16, to_slice_u128, take_from_bytes_u128, 82, CRC_82_DARC);
 
+    macro_rules! crc_small {
+        ($name:ident, $C:ident, $nb:expr, $to:ident, $take:ident, $w:expr, $alg:expr) => {
+            /// every width, one-byte probe (cheap): frame == [plain byte] ++ LE(reference CRC); round trip; ANY corruption confined to
+            /// the checksum bytes is rejected; truncation of the checksum is rejected
+            #[kani::proof]
+            #[kani::unwind(20)]
+            fn $name() {
+                let v: u8 = kani::any();
+                let a = $alg;
+                let want = ref_crc($w, a.poly as u128, a.init as u128, a.refin, a.refout, a.xorout as u128, &[v]);
+                let mut buf = [0u8; 1 + $nb + 1];
+                let used = $to(&v, &mut buf[..1 + $nb], $C.digest()).unwrap().len();
+                assert!(used == 1 + $nb && buf[0] == v, "SPEC: CRC frame is the plain encoding followed by width/8 checksum bytes");
+                let i: usize = kani::any();
+                kani::assume(i < $nb);
+                assert!(buf[1 + i] == (want >> (8 * i)) as u8, "SPEC: checksum byte i must be bits 8i.. of the reference CRC (little-endian)");
+                let (back, rest) = $take::<u8>(&buf[..used], $C.digest()).unwrap();
+                assert!(back == v && rest.is_empty());
+                assert!($take::<u8>(&buf[..used - 1], $C.digest()).is_err(), "SPEC: a truncated checksum must be rejected");
+                let m: u8 = kani::any();
+                kani::assume(m != 0);
+                buf[1 + i] ^= m;
+                match $take::<u8>(&buf[..used], $C.digest()) {
+                    Err(Error::DeserializeBadCrc) => {}
+                    _ => panic!("SPEC: a corrupted checksum byte must be rejected with DeserializeBadCrc"),
+                }
+            }
+        };
+    }
+    crc_small!(small_u8, C8, 1, to_slice_u8, take_from_bytes_u8, 8, CRC_8_SMBUS);
+    crc_small!(small_u16, C16, 2, to_slice_u16, take_from_bytes_u16, 16, CRC_16_USB);
+    crc_small!(small_u32, C32, 4, to_slice_u32, take_from_bytes_u32, 32, CRC_32_ISCSI);
+    crc_small!(small_u64, C64, 8, to_slice_u64, take_from_bytes_u64, 64, CRC_64_ECMA_182);
+    crc_small!(small_u128, C128, 16, to_slice_u128, take_from_bytes_u128, 82, CRC_82_DARC);
+
     /// a multi-byte try_take_n (borrowed bytes) must feed the digest too: &[u8] payload round trip + wrong-checksum rejection
     #[kani::proof]
     #[kani::unwind(20)]
